@@ -171,6 +171,11 @@ fn main() {
             Some("C14") => driver::minimise::<C14>(&args[3..]),
             _ => usage(),
         },
+        Some("history-run") => match args.get(2).map(String::as_str) {
+            Some("C13") => driver::history_run::<C13>(&args[3..]),
+            Some("C14") => driver::history_run::<C14>(&args[3..]),
+            _ => usage(),
+        },
         Some("replay") => driver::replay(&args[2..]),
         Some("replay-child") => driver::replay_child(&args[2..]),
         _ => usage(),
